@@ -50,7 +50,14 @@ func buildType(code int, codeTag string, fields []fieldSpec) reflect.Type {
 		}
 	}
 	if len(emb) > 0 {
-		top = append(top, reflect.StructField{Name: "Inner", Type: reflect.StructOf(emb), Anonymous: true})
+		// the embedded struct sits first, in the middle or last among the top-level fields (by function code):
+		// what is declared AFTER an embedded struct must be encoded and decoded like everything else
+		in := reflect.StructField{Name: "Inner", Type: reflect.StructOf(emb), Anonymous: true}
+		pos := 1 + code%3*(len(top)-1)/2 // 1 (right after MsgType) | middle | len(top) (last)
+		if code%3 == 2 {
+			pos = len(top)
+		}
+		top = append(top[:pos], append([]reflect.StructField{in}, top[pos:]...)...)
 	}
 	return reflect.StructOf(top)
 }
